@@ -141,7 +141,7 @@ PROPS["C04"] = {
     "assumptions": ["idle latch/unlatch pairs bounded by MaxIdle = 1 in the generator (unbounded in MC_Codec's tiny configuration)"],
 }
 PROPS["C10"] = {
-    "level_text": "(A) closed forms on seeded random cases of every length: never a larger symbol than plain ASCII / plain Base256 needs, TooMuch only if those do not fit, ties resolved by list order (clauses of Trace_Enc). (B) Writer exploration (Trace_Min): for a deterministic set of ~10k short cases TLC runs the strict reference encoder against every listed capacity strictly below the implementation's choice (all if it refused); any completed behaviour is a valid smaller encoding. Each reported violation carries the witness stream, which the implementation's own decoder must decode to the input before it is reported.",
+    "level_text": "(A) closed forms on a fixed-seed case set of every input length: never a larger symbol than plain ASCII / plain Base256 needs, TooMuch only if those do not fit, ties resolved by list order (clauses of Trace_Enc). (B) Writer exploration (Trace_Min): for a deterministic set of ~25k short cases (thorough ~200k) TLC runs the strict reference encoder against every listed capacity strictly below the implementation's choice (all if it refused); any completed behaviour is a valid smaller encoding. Each reported violation carries the witness stream, which the implementation's own decoder must decode to the input before it is reported.",
     "level_note": "Trusts: Writer.tla is a SUBSET of the conformant encodings (strict reading of the end-of-symbol rules; with ASCII disabled ASCII data only inside the standard's fallbacks), so a witness is a real smaller encoding. Known findings are identified by the specific input+configuration (KNOWN_FINDINGS.txt).",
     # both parts use a fixed generator seed: the planner is a heuristic, so random exploration could always turn up a
     # further genuine non-minimal input; known findings must be reproducible (identified by input), see DESIGN.md section 5
